@@ -248,3 +248,18 @@ Proof. exists [[v_ign]]. vm_compute. split; reflexivity. Qed.
 Lemma github_legacy_refuted :
   exists files, run_lint_gen true Github files = None /\ exists r, run_lint_gen true Human files = Some r.
 Proof. exists [[v_prs]]. vm_compute. split; [reflexivity | now eexists]. Qed.
+
+(* ------------------------------------------------------------------ further non-vacuity examples *)
+
+Example fix_stdin_example :
+  run_fix_stdin Human [v_ok] 7 = Some (0, 7) /\ run_fix_stdin Github [v_ok; v_prs] 7 = Some (1, 7) /\ run_fix_stdin Json [] 7 = Some (0, 7).
+Proof. vm_compute. repeat split; reflexivity. Qed.
+
+Example fix_declined_example :
+  run_fix Human false [ {| f_id := 1; f_viols := [v_ok]; f_fixed := 11 |} ] = Some (0, []) /\
+  run_fix Human true [ {| f_id := 1; f_viols := [v_ok]; f_fixed := 11 |} ] = Some (0, [(1, 11)]).
+Proof. vm_compute. split; reflexivity. Qed.
+
+Example stdin_flag_example :
+  stdin_flag [true] = Some true /\ stdin_flag [false; true] = None /\ stdin_flag [false; false] = Some false /\ stdin_flag [] = Some false.
+Proof. vm_compute. repeat split; reflexivity. Qed.
